@@ -76,6 +76,7 @@ class Function:
         self.locals = {}  # local -> type text
         self.blocks = {}
         self.is_promoted = False
+        self.debug = []  # (source name, place text) of `debug name => place;` lines
 
     def __repr__(self):
         return "Function(%s @%d)" % (self.name, self.line)
@@ -438,6 +439,9 @@ class Mir:
             ml = RE_LOCAL.match(t)
             mb = RE_BB.match(t)
             s = t.strip()
+            if cur is None and s.startswith("debug ") and " => " in s:
+                dn, dp = s[6:].rstrip(";").split(" => ", 1)
+                f.debug.append((dn.strip(), dp.strip()))
             if ml and cur is None:
                 f.locals[ml.group(1)] = ml.group(2)
             elif mb:
